@@ -15,7 +15,7 @@ CHECKS = {
  "C01": dict(
    category="exploration",
    technique="bounded exhaustive enumeration of the expression grammar x use contexts on the real CodeBuilder (canonical front-end op sequence), oracle = go/parser+go/types on the files the package writes",
-   text="Every single-operator expression over a 78-atom alphabet, every atom/single-operator expression over an 18-atom alphabet in ~100 use contexts, and depth-2 expressions over a reduced alphabet are built into fresh packages; whenever the builder reports no error the written files must parse and type-check. 1.8M executions (quick). Complete within the stated alphabets/depth. Known accepted-but-ill-typed classes are pinned one by one (class = root construct | use | normalised go/types message) with their input counts in known/C01.<tier>.tsv; any other class or a larger count is a VIOLATION.",
+   text="Both configurations: after the default configuration, every single-operator expression over the 78-atom alphabet (uses `_ = e`, `x := e`) and every atom in every use context is built again in the XGo-builtin configuration (untyped big-number kinds of internal/builtin configured; thorough adds the single-operator x all-uses stage), same oracle. Every single-operator expression over a 78-atom alphabet, every atom/single-operator expression over an 18-atom alphabet in ~100 use contexts, and depth-2 expressions over a reduced alphabet are built into fresh packages; whenever the builder reports no error the written files must parse and type-check. 1.8M executions (quick). Complete within the stated alphabets/depth. Known accepted-but-ill-typed classes are pinned one by one (class = root construct | use | normalised go/types message) with their input counts in known/C01.<tier>.tsv; any other class or a larger count is a VIOLATION.",
    note="Trusted: go/types 1.23.5 as the specification; the fixture env package; the driver's transcription of the canonical operation sequences; the shared-builtin accelerator (self-checked against the real InitBuiltin path on a fixed slice of every run).",
    design="§4 C01"),
  "C04": dict(
